@@ -158,6 +158,19 @@ for _h, _needs, _can in (("pc_interpolate", ["interpolate"], [dict(name="one_int
     UNITS.append(dict(name="c02_pathcontrol_" + _h[3:], template="C02/pathcontrol.c", mode="plain", entry="h_" + _h, sources=PC_SRC, needs=_needs, flags=["--bounds-check", "--pointer-check", "--signed-overflow-check"], unwind=10,
                       unwindset={"any_path.2": 34, "h_pc_interpolate.5": 34}, level="bounded", bound="<= 2 controls, <= 3 steps per control", backend="cadical", timeout=600, functions=["ompl::control::PathControl::" + _h[3:]], canaries=_can))
 
+PA_RULES = [
+    (r"const double eps = std::numeric_limits<float>::epsilon\(\);", "", 0), (r"findDurationAndAncestor\(motion->parent_, state, scratch, ancestor\)", "pdst_fdaa(M_parent_[motion], state, scratch, ancestor_p)", 0),
+    (r"si_->distance\(([^;()]+?), state\) < eps", r"NEAR(\1, state)", 0), (r"si_->copyState\(scratch, motion->startState_\);", ";", 0), (r"siC_->propagate\(scratch, motion->control_, 1, scratch\);", ";", 0),
+    (r"while \(ancestor->parent_ &&", "found_ = motion; dlocal_ = duration; while (ancestor->parent_ &&", 0),
+    (r"siC_->equalControls\(", "EQUAL_CONTROLS(", 0),
+    (r"(\w+)->parent_->(control_|controlDuration_)", r"M_\2[M_parent_[\1]]", 0), (r"(\w+)->(endState_|startState_|controlDuration_|control_|parent_)\b", r"M_\2[\1]", 0),
+    (r"\bancestor\b", "(*ancestor_p)", 0),
+]
+UNITS.append(dict(name="c02_pdst_findDurationAndAncestor", template="C02/pdst_ancestor.c", mode="plain", entry="h_pdst_fdaa", flags=["--bounds-check", "--pointer-check", "--unsigned-overflow-check"], unwind=8, level="bounded",
+                  bound="chains of <= 4 motions, control durations <= 4 steps", backend="minisat", timeout=300, functions=["ompl::control::PDST::findDurationAndAncestor"],
+                  sources=[dict(name="findDurationAndAncestor", file=PDSTF, sig=r"unsigned int ompl::control::PDST::findDurationAndAncestor\(Motion \*motion, base::State \*state, base::State \*scratch,\s*Motion \*&ancestor\) const", rules=PA_RULES, loops={"allow_uncontracted": True})],
+                  canaries=[dict(name="pieces_identified_by_control_value", where="body:findDurationAndAncestor", rx=r"M_control_\[\(\*ancestor_p\)\] == M_control_\[M_parent_\[\(\*ancestor_p\)\]\]", repl="EQUAL_CONTROLS(M_control_[(*ancestor_p)], M_control_[M_parent_[(*ancestor_p)]])")]))
+
 ASSUMPTIONS = ["the user's state propagator and validity checker are deterministic callbacks; states/controls are abstract objects with ghost counters",
                "bounded: |steps| <= 4, at most 3 control samples; control dimension <= 64", "RNG contract uniformReal in [a,b)",
                "planner fragments: motions/states/controls are references with ghost content ids; the goal, samplers and propagators are arbitrary"]
